@@ -192,6 +192,18 @@ def http_scenarios(tier):
                 origins={('10.0.0.1', 80): (lambda p1=p1, p2=p2: HttpOrigin([p1, p2]))},
                 dns={'h.test': '10.0.0.1'}, kinds='ARS', horizon=3000,
                 features={'role': 'http', 'flags': fname, 'response': 'two_exchanges', '_expect_c': r1 + r2}))
+        # the client PIPELINES two requests; the origin's answer is one byte stream of two responses whose
+        # boundary need not coincide with a segment boundary: every packing of the two-response stream
+        for (n1, n2) in (('cl', 'chunked'), ('chunked', 'cl'), ('cl0', 'cl')):
+            r1, r2 = RESPONSES[n1], RESPONSES[n2]
+            two = GET + GET.replace(b'/r', b'/s')
+            for pk in packings(r1 + r2, tier, None if tier == 'thorough' else 10):
+                out.append(Scenario(
+                    'http/%s/pipelined2-%s+%s/%s' % (fname, n1, n2, pkname(pk)), ['--threadless'] + fl, mode='local',
+                    clients=[dict(script=[('send', two), ('wait_recv', len(r1) + len(r2)), ('wait_idle',), ('close',)])],
+                    origins={('10.0.0.1', 80): (lambda pk=pk, n=len(two): RawOrigin(after={n + 20: list(pk)}))},
+                    dns={'h.test': '10.0.0.1'}, kinds='ARS', horizon=3000,
+                    features={'role': 'http', 'flags': fname, 'response': 'two_pipelined', '_expect_c': r1 + r2}))
     return out
 
 
